@@ -425,6 +425,50 @@ def TM.steps (enc : ν → τ) : TM ν → List (ν × ν) → TM ν
   | m, [] => m
   | m, w :: ws => TM.steps enc (TM.write enc { m with time := w.1, dt := w.2 }).1 ws
 
+
+/-! ## input handling on export (`_sort_and_unify_data`, `_build_field`, `write_vtu`) -/
+
+/-- `_to_vector_format`: a value array of `size` entries for a grid with `ndofs` cells / nodes -/
+def toVectorFormat (size ndofs : Nat) : Except String Unit :=
+  if size = 0 ∧ ndofs = 0 then .ok ()
+  else if ndofs = 0 then .error "ZeroDivisionError"
+  else if size % ndofs = 0 then .ok ()
+  else .error "ValueError"
+
+/-- `_build_field`: the values of the entities of one dimension that carry the key, in listing
+    order; data for all or for none of them, otherwise `ValueError` -/
+def buildField (vals : List (Option (List α))) : Except String (Option (List α)) :=
+  let present := vals.filterMap id
+  if present.length = 0 then .ok none
+  else if present.length = vals.length then .ok (some present.flatten)
+  else .error "ValueError"
+
+/-- `write_vtu(time_dependent=True)` without explicit time step: the internal counter -/
+def counterSteps : Nat → Nat → List Nat
+  | _, 0 => []
+  | c, k + 1 => c :: counterSteps (c + 1) k
+
+/-- is the time (label value) non-decreasing in the time step: input condition of
+    `pvd_index_is_latest_step`, evaluated by the driver on every case -/
+def monoEntries (entries : List (Nat × Nat × φ)) : Bool :=
+  entries.all (fun e => entries.all (fun e' => !(e.1 ≤ e'.1) || e.2.1 ≤ e'.2.1))
+
+/-- is a label of the form `"%f"` produces (digits, ".", six digits; no leading zeros) -/
+def wellFormedLabel (s : List Nat) : Bool := renderF (valueF s) == s
+
+/-- `DataSavingMixin`: every step writes the time information, a vtu with the counter as time
+    step and the pvd with the exported times; a restart reads the pvd, loads the time
+    information and sets time and dt from the returned index.  `ws`: micro-time, time, dt. -/
+def mixinRestart (ws : List (Nat × ν × ν)) : Option (Nat × TM ν) :=
+  let steps := counterSteps 0 ws.length
+  let entries := (ws.zip steps).map (fun p => (p.1.1, p.2, p.2))
+  match pvdSelectLabels (rendered entries), ws with
+  | some (idx, _), w :: _ =>
+    match TM.setFromExported { time := w.2.1, dt := w.2.2, expTimes := ws.map (·.2.1), expDt := ws.map (·.2.2) } (idx : Int) with
+    | some m => some (idx, m)
+    | none => none
+  | _, _ => none
+
 /-! ## which time step a pvd file restores -/
 
 /-- largest exported time-step index -/
